@@ -139,6 +139,23 @@ R.update({
     "C18-seed8": ("C18", "C18 quick (sampling_quick, resumption by throw())", "after strengthening", "CPython 3.12 delivers the thrown exception as the call event's arg: added to the environment model"),
 })
 
+# round 4 (same session): eight properties whose harnesses had changed most; 24 delivered, 11 repeated earlier changes, 13 kept
+R.update({
+    "C01-seed8": ("C01", "C01 quick (c01_nestedalt)", "after strengthening", "one key, two value types across two-level merges, through the pipeline"),
+    "C02-seed9": ("C02", "C02 quick (step_quick: await in a coroutine frame, then drain; realrun: coro_rebinding)", "at once", "the drain phase of the redesigned step harness shows the lost in-flight state"),
+    "C03-seed8": ("C03", "C03 quick (hookfree: mappingproxy around a journaling dict subclass)", "after strengthening", "tripwire kind added"),
+    "C09-seed9": ("C09", "C09 quick (E2 Q3/Q4 with rows on two days)", "after strengthening", "GROUP BY ..., date(created_at): the day of a row became a solver variable (before: SQL outside the subset, exit 2)"),
+    "C09-seed10": ("C09", "C09 quick (atomic, sqlite3.InterfaceError at row j)", "after strengthening", "exception class added to the injected write faults"),
+    "C09-seed11": ("C09", "not reported as a violation: C09 quick answers exit 2 (`LIKE ? ESCAPE` with a per-connection `PRAGMA case_sensitive_like`: outside the modelled SQL)", "outside the claim", "the defect only shows on a second connection that never ran the PRAGMA; per-connection state is not modelled"),
+    "C12-seed7": ("C12", "C12 quick (sigrender_quick)", "at once", ""),
+    "C12-seed8": ("C12", "C12 quick (genmod_quick: positional-only receiver)", "at once", ""),
+    "C12-seed9": ("C12", "C12 quick (genmod_quick, nested class's trace first)", "after strengthening", "needed the order in which the traces arrive"),
+    "C14-seed8": ("C14", "C14 quick (diamond1, family mi_mixed)", "after strengthening", "needs two classes with two unrelated bases next to classes deriving from the second base only"),
+    "C14-seed9": ("C14", "C14 quick (order2q)", "after strengthening", "a one-shot iterator inside DEFAULT_REWRITER: it had already been consumed in the PARENT process (shard enumeration runs the harness body), so every worker inherited the broken state consistently; enumeration and re-validation now run in forked children"),
+    "C18-seed9": ("C18", "C18 quick (realrun_sampled; sampling_quick)", "at once", "realrun_sampled was added while the round was running"),
+    "C18-seed10": ("C18", "not reported as a violation: C18 quick answers exit 2 (the tracer draws with random.expovariate)", "outside the claim", "statistical clause only"),
+})
+
 
 def main():
     lines = ["# Seeded changes and which checks catch them", "",
@@ -146,7 +163,7 @@ def main():
              "All were produced by sub-agents that saw only the property text and a scratch worktree; each was confirmed (tests pass with the patch, demo fails with it and passes without) "
              "by tools/try_seed.sh before the check was run against it. Three rounds: seed1-2 (first session), seed3-5 and seed6-8 (second session). "
              "'when' says whether the quick check as it stood when the change was first tried caught it. After the strengthenings every change is caught by the "
-             "quick tier of its property, except two that are answered exit 2 (inconclusive) by design (C09-seed5, C18-seed7).", "",
+             "quick tier of its property, except four that are answered exit 2 (inconclusive) by design (C09-seed5, C09-seed11, C18-seed7, C18-seed10).", "",
              "| seed | property | caught by | when | note |", "|---|---|---|---|---|"]
     for name, (pid, by, when, note) in sorted(R.items()):
         d = os.path.join(HERE, "seeded", name)
